@@ -58,3 +58,9 @@ Fixpoint remove_last {A} (l : list A) : list A :=
   | [x] => []
   | x :: r => x :: remove_last r
   end.
+
+Lemma remove_last_app {A} (l : list A) x : remove_last (l ++ [x]) = l.
+Proof.
+  induction l as [|a l IH]; [reflexivity|]. change ((a :: l) ++ [x]) with (a :: (l ++ [x])). cbn [remove_last].
+  destruct (l ++ [x]) eqn:E; [destruct l; discriminate|]. rewrite <- IH. reflexivity.
+Qed.
